@@ -11,12 +11,14 @@ import (
 type Value interface{}
 
 type Cell struct {
-	V      Value
-	ID     int
-	Shared *SharedInfo // event mode: non-nil for published / shadow cells (setup cells are named by ID)
-	Shadow bool        // event mode: stand-in for an object allocated by another thread
-	Origin string      // event mode: allocation-site name of a thread-allocated object
-	Type   types.Type  // static type of an allocated object (for shadows)
+	V        Value
+	ID       int
+	Shared   *SharedInfo // event mode: non-nil for published / shadow cells (setup cells are named by ID)
+	Shadow   bool        // event mode: stand-in for an object allocated by another thread
+	Captured bool        // event mode: private variable reachable from a goroutine's closure
+	CapRoot  string      // allocation-site name of the captured object this cell belongs to
+	Origin   string      // event mode: allocation-site name of a thread-allocated object
+	Type     types.Type  // static type of an allocated object (for shadows)
 }
 
 type PtrVal struct{ C *Cell } // C == nil: nil pointer
